@@ -228,6 +228,12 @@ func (w *Writer) Delete(bs []byte) (success bool) {
 
 // Delete2 is same as Delete(). Additionally returns the deleted item's node
 func (w *Writer) Delete2(bs []byte) (n *skiplist.Node, success bool) {
+	// The node found by GetNode must stay allocated until DeleteNode is done
+	// with it: another writer may delete and free it in between.
+	barrier := w.store.GetAccesBarrier()
+	token := barrier.Acquire()
+	defer barrier.Release(token)
+
 	if n := w.GetNode(bs); n != nil {
 		verifYield(VerifPtDelGot)
 		return n, w.DeleteNode(n)
